@@ -541,6 +541,9 @@ def _compare(schedule, expect, out_lines, res, n, S):
                         res.add("C07", "decision", "C07:both:decision", i, f"python {'discards' if extra['unchanged'] else 'keeps'} (NIS {nis_x!r}, threshold {thr_x!r})", f"c++ {'discards' if cpp_unchanged else 'keeps'}", "both")
                     if want == "discard":
                         res.stats["probe:cpp_discarded"] += 1
+                        # C06: a discarded reading's innovation is still recorded (generated C++ filter)
+                        if cpp_unchanged and (not inn or inn[0] == "none" or reference.rel(np.array([float.fromhex(v) for v in inn]).reshape(-1, 1), u["inn"]) > TOL):
+                            res.add("C06", "discard_innovation_cpp", "C06:cpp:innovation_record:discarded_reading", i, f"innovation of the discarded reading recorded: {u['inn'].T.tolist()}", f"{inn}", "cpp")
                 if want == "either":
                     continue
             elif u is not None and k is None and cpp_unchanged and ((float(np.max(np.abs(u["KHP"]))) if u["KHP"].size else 0.0) > 1e-12):
